@@ -8,8 +8,25 @@ import OidcModel.Spec.C02
 import OidcModel.Generated.RPVerifier
 import OidcModel.Generated.KeySetC02
 import OidcModel.Generated.Jwks
+import OidcModel.GoTac
 namespace C02
 open Go Gen Hand
+
+/-- characterisation lemmas of the form `Gen.f args = .ok x → <what that means>` (the regenerated `f` already unfolded in the
+    goal): split every `if` / `match` of the term - whatever its shape -, take the equation as a hypothesis in each branch and close
+    the branch.  Like `go_leaf` (OidcModel/GoTac.lean) the script does not depend on the shape of the Go text. -/
+theorem notNil_eq_not_isNil {α : Type} [Go.Nilable α] (x : α) : Go.notNil x = !Go.isNil x := rfl
+
+syntax "go_paths" : tactic
+macro_rules
+  | `(tactic| go_paths) => `(tactic| (
+      (try simp only [])
+      (repeat' split)
+      all_goals (intro h; first
+        | (simp_all; done)
+        | grind
+        | (simp_all [notNil_eq_not_isNil]; done)
+        | (simp only [Except.ok.injEq, reduceCtorEq] at h; subst_vars; first | (simp_all; done) | grind | (simp_all; grind)))))
 
 theorem fold_some (kid use alg : String) (keys : List JWK) (k : JWK) (c : List JWK) :
     keys.foldl (fmkStep kid use alg) (some k, c) = (some k, c) := by
@@ -367,6 +384,25 @@ theorem verifySignature_sound {ks : KeySet} {j : JWS} {p : Payload} (h : ks.Veri
         exact ⟨⟨hm, hg⟩, trivial⟩
 
 
+/-- characterisation of the regenerated `oidc.CheckSignature` (in the vocabulary of the Go text; the only place where
+    `Gen.CheckSignature` is unfolded): it succeeds only if go-jose parses the token under the allow-list in force, there is
+    neither no signature nor more than one, the key set verifies it, the signed payload is the parsed one, and the claims
+    come back with the signature's algorithm noted -/
+theorem checkSignature_paths {now : Int} {t : Token} {p : Payload} {c c' : Claims} {algs : List String} {ks : KeySet} :
+    CheckSignature now t p c algs ks = .ok c' →
+    ∃ j, joseParseSigned t (toJoseSignatureAlgorithms algs) = .ok j ∧ Go.len j.Signatures ≠ 0 ∧ Go.len j.Signatures ≤ 1 ∧
+      ∃ sp, ks.VerifySignature j = .ok sp ∧ Go.bytesEqual sp p = true ∧
+        c' = c.SetSignatureAlgorithm (Go.index j.Signatures (0 : Int)).Header.Algorithm := by
+  unfold CheckSignature
+  go_paths
+
+/-- neither empty nor longer than one: exactly one signature -/
+theorem single_of_len {l : List JSig} (h0 : Go.len l ≠ 0) (h1 : Go.len l ≤ 1) : l = [Go.index l (0 : Int)] := by
+  match l with
+  | [] => simp [Go.len, Go.HasLen.len] at h0
+  | [s] => rfl
+  | a :: b :: r => simp [Go.len, Go.HasLen.len] at h1; omega
+
 /-- what `oidc.ParseToken` + `oidc.CheckSignature` (as regenerated from the source) establish together -/
 theorem parse_and_signature_sound {now : Int} {t : Token} {p : Payload} {c c' : Claims} {algs : List String} {ks : KeySet}
     (hp : ParseToken now t = .ok (p, c)) (hs : CheckSignature now t p c algs ks = .ok c') :
@@ -381,25 +417,17 @@ theorem parse_and_signature_sound {now : Int} {t : Token} {p : Payload} {c c' : 
   simp at hp
   obtain ⟨hp1, hp2⟩ := hp
   subst hp1 hp2
-  unfold CheckSignature at hs
-  simp only [] at hs
-  split at hs
-  · split at hs <;> simp at hs
-  rename_i j hj
+  obtain ⟨j, hj, hl0, hl1, sp, hv, hbytes, hc'⟩ := checkSignature_paths hs
+  have hone := single_of_len hl0 hl1
   unfold joseParseSigned at hj
   split at hj; · simp at hj
   rename_i j0 hjws
   split at hj
   · rename_i hall
     simp at hj; subst hj
-    split at hs; · simp at hs
-    split at hs; · simp at hs
-    split at hs; · simp at hs
-    rename_i sp hv
-    split at hs; · simp at hs
-    rename_i hbytes
-    simp at hs
     obtain ⟨s, k, hsig, hpay, hjust, hamb⟩ := verifySignature_sound hv
+    have hs0 : Go.index j0.Signatures (0 : Int) = s := by rw [hsig]; rfl
+    rw [hs0] at hc'
     subst hpay
     constructor
     · unfold acceptedOK
@@ -420,7 +448,7 @@ theorem parse_and_signature_sound {now : Int} {t : Token} {p : Payload} {c c' : 
       have hb : (p0.bytes != j0.payload.bytes) = false := by
         simp [Go.bytesEqual] at hbytes; simp [hbytes]
       have hallowed' : s.Header.Algorithm ∈ allowed algs := by simpa using hallowed
-      simp [hallowed', hany, hgen, hb, ← hs, Claims.SetSignatureAlgorithm]
+      simp [hallowed', hany, hgen, hb, hc', Claims.SetSignatureAlgorithm]
     · unfold ambiguous
       cases hk : ks.kind <;> simp only [hjws, hsig]
       simp only [Bool.and_eq_false_iff, decide_eq_false_iff_not]
@@ -434,20 +462,12 @@ theorem parse_and_signature_sound {now : Int} {t : Token} {p : Payload} {c c' : 
 theorem checkSignature_key {now : Int} {t : Token} {p : Payload} {c c' : Claims} {algs : List String} {ks : KeySet}
     (hs : CheckSignature now t p c algs ks = .ok c') :
     ∃ j s k, t.jws = some j ∧ j.Signatures = [s] ∧ justifies ks j s k = true := by
-  unfold CheckSignature at hs
-  simp only [] at hs
-  split at hs
-  · split at hs <;> simp at hs
-  rename_i j hj
+  obtain ⟨j, hj, _, _, sp, hv, _, _⟩ := checkSignature_paths hs
   unfold joseParseSigned at hj
   split at hj; · simp at hj
   rename_i j0 hjws
   split at hj
   · simp at hj; subst hj
-    split at hs; · simp at hs
-    split at hs; · simp at hs
-    split at hs; · simp at hs
-    rename_i sp hv
     obtain ⟨s, k, hsig, _, hjust, _⟩ := verifySignature_sound hv
     exact ⟨j0, s, k, hjws, hsig, hjust⟩
   · simp at hj
@@ -488,44 +508,40 @@ theorem named_kid_of_merged {s : JSig} (h : headerMerged s = true) :
   simp only [headerMerged, beq_iff_eq] at h
   rw [h]; exact ⟨rfl, rfl⟩
 
-theorem rp_paths {now t v c} (h : VerifyIDToken now t v = .ok c) :
-    ∃ p c0, ParseToken now t = .ok (p, c0) ∧ ∃ c1, CheckSignature now t p c0 v.SupportedSignAlgs v.KeySet = .ok c1 ∧ c1 = c := by
-  unfold VerifyIDToken DecryptToken at h
-  simp only [] at h
-  repeat' (split at h <;> try (simp at h))
-  all_goals (subst h; exact ⟨_, _, by assumption, _, by assumption, rfl⟩)
+/-! Characterisation lemmas of the four regenerated verifier functions (the only places where they are unfolded; proved by the
+    shape-independent `go_paths`): an accepted token went through `ParseToken` and `CheckSignature` with the verifier's allow-list
+    and key set, and the claims handed back are the ones `CheckSignature` returned. -/
 
-theorem opAccessToken_paths {now t v c} (h : OPVerifyAccessToken now t v = .ok c) :
+theorem rp_paths {now t v c} : VerifyIDToken now t v = .ok c →
     ∃ p c0, ParseToken now t = .ok (p, c0) ∧ ∃ c1, CheckSignature now t p c0 v.SupportedSignAlgs v.KeySet = .ok c1 ∧ c1 = c := by
-  unfold OPVerifyAccessToken DecryptToken at h
-  simp only [] at h
-  repeat' (split at h <;> try (simp at h))
-  all_goals (subst h; exact ⟨_, _, by assumption, _, by assumption, rfl⟩)
+  unfold VerifyIDToken DecryptToken
+  go_paths
+
+theorem opAccessToken_paths {now t v c} : OPVerifyAccessToken now t v = .ok c →
+    ∃ p c0, ParseToken now t = .ok (p, c0) ∧ ∃ c1, CheckSignature now t p c0 v.SupportedSignAlgs v.KeySet = .ok c1 ∧ c1 = c := by
+  unfold OPVerifyAccessToken DecryptToken
+  go_paths
 
 def _root_.HintOut.claims : HintOut → Claims
   | .valid c => c
   | .expired c _ => c
 
-theorem idTokenHint_paths {now t v o} (h : VerifyIDTokenHint now t v = .ok o) :
+@[simp] theorem _root_.HintOut.claims_valid (c : Claims) : (HintOut.valid c).claims = c := rfl
+@[simp] theorem _root_.HintOut.claims_expired (c : Claims) (e : String) : (HintOut.expired c e).claims = c := rfl
+
+theorem idTokenHint_paths {now t v o} : VerifyIDTokenHint now t v = .ok o →
     ∃ p c0, ParseToken now t = .ok (p, c0) ∧ ∃ c1, CheckSignature now t p c0 v.SupportedSignAlgs v.KeySet = .ok c1 ∧ c1 = o.claims := by
-  unfold VerifyIDTokenHint DecryptToken at h
-  simp only [] at h
-  repeat' (split at h <;> try (simp at h))
-  all_goals (subst h; exact ⟨_, _, by assumption, _, by assumption, rfl⟩)
+  unfold VerifyIDTokenHint DecryptToken
+  go_paths
 
 /-- the key set a JWT-profile verifier uses for an assertion with issuer `iss` -/
 def assertionKeySet (v : JWTProfileVerifier) (iss : String) : KeySet :=
   if Go.isNil v.keySet then Hand.jwtProfileKeySet v.Storage iss else v.keySet
 
-theorem jwtAssertion_paths {now t v c} (h : VerifyJWTAssertion now t v = .ok c) :
+theorem jwtAssertion_paths {now t v c} : VerifyJWTAssertion now t v = .ok c →
     ∃ p c0, ParseToken now t = .ok (p, c0) ∧ ∃ c1, CheckSignature now t p c0 [] (assertionKeySet v c0.iss) = .ok c1 ∧ c1 = c := by
-  unfold VerifyJWTAssertion at h
-  simp only [] at h
-  repeat' (split at h <;> try (simp at h))
-  all_goals
-    subst h
-    refine ⟨_, _, by assumption, _, ?_, rfl⟩
-    simp_all [assertionKeySet, Go.nil, Go.HasNil.nilv, Claims.Issuer]
+  unfold VerifyJWTAssertion assertionKeySet Claims.Issuer Go.nil HasNil.nilv instHasNilList
+  go_paths
 
 /-- C02 for the RP ID-token verifier -/
 theorem c02_rp (now : Int) (t : Token) (v : Verifier) :
